@@ -154,6 +154,8 @@ pub fn mix(a: u64, b: u64) -> u64 {
 pub struct Trace {
     out: std::io::BufWriter<std::fs::File>,
     pub lines: u64,
+    /// while set, only Ret lines (panics, hangs) are written: the silent continuation of a run whose trace budget is used up
+    pub muted: bool,
 }
 
 impl Trace {
@@ -163,9 +165,12 @@ impl Trace {
             std::process::exit(2);
         });
         watchdog_install(f.as_raw_fd());
-        Self { out: std::io::BufWriter::with_capacity(1 << 20, f), lines: 0 }
+        Self { out: std::io::BufWriter::with_capacity(1 << 20, f), lines: 0, muted: false }
     }
     pub fn line(&mut self, v: serde_json::Value) {
+        if self.muted && v.get("ev").and_then(|e| e.as_str()) != Some("Ret") {
+            return;
+        }
         let _ = serde_json::to_writer(&mut self.out, &v);
         let _ = self.out.write_all(b"\n");
         // unbuffered on purpose: when the watchdog ends the process inside a library call that never
